@@ -252,10 +252,12 @@ def r11e(ctx):
     isub = ctx.model.fn("intermediates:RegisteredIntermediate.__init_subclass__")
     st = [x for x in walk_fn(isub) if isinstance(x, ast.Assign) and U(x.targets[0]) == "cls._registry[itmd_type][name]"]
     ctx.check(rule, isub, len(st) == 1 and U(st[0].value) == "cls()", "classes registered under their class name", "registration changed", key="register")
+    from . import c19
+    saved = ctx.per_rule
+    c19.r19h(ctx)
     ob = ctx.model.fn("expr_container:Obj.expand_intermediates")
-    lk = [x for x in walk_fn(ob) if isinstance(x, (ast.Assign, ast.AnnAssign)) and "available.get" in U(x.value or ast.Constant(None))]
-    ctx.check(rule, ob, len(lk) == 1 and "self.longname(True)" in U(lk[0].value), "definitions looked up by the default long name",
-              "lookup changed", key="lookup")
+    lk = [c for c in calls_in(ob) if call_name(c) == "get" and U(c.func.value).endswith(".available")]
+    ctx.check(rule, ob, len(lk) == 1, "definitions looked up in the registry", "lookup changed", key="lookup")
 
 
 def r11f(ctx):
